@@ -344,4 +344,50 @@ theorem section_polyline_spec (verts : List (V3 K)) (tris : List Tri) (n : V3 K)
         · exact ⟨(j, i), hs, by rw [gd]; exact b, by rw [gd]; exact a, Or.inr (by rw [gd]; exact x)⟩
   · simp [hv] at h
 
+/-- **C17 (plane section, world-space and canonical-axis wrappers)**: `TriMesh::intersection_with_plane(position, axis, bias, eps)`
+and `canonical_intersection_with_plane(i, bias, eps)` are the local routine on the transferred plane (`planeToLocal`, whose signed
+distance at a local point equals the world plane's at the placed point: `plane_to_local_signed_distance`) resp. on `ith_axis(i)`; on a
+mesh with valid indices they never panic, and their polylines satisfy `section_polyline_spec` for that plane. -/
+theorem section_wrappers_spec (verts : List (V3 K)) (tris : List Tri) (pos : Iso3 K) (n : V3 K) (i : Fin 3) (bias eps : K)
+    (he : 0 ≤ eps) (hv : validMesh verts.length tris = true) :
+    letI := fieldNum K sq
+    (Section.sectionPos verts tris pos n bias eps).isSome = true ∧ (Section.sectionCanonical verts tris i bias eps).isSome = true ∧
+    (∀ vs segs, Section.sectionPos verts tris pos n bias eps = some (.intersect vs segs) →
+      (∀ s ∈ segs, s.1 < vs.length ∧ s.2 < vs.length) ∧ segs.Pairwise SegNe ∧
+      (∀ s ∈ segs, ∃ t ∈ tris, PlanePt (planeToLocal pos n bias).1 (planeToLocal pos n bias).2 eps verts.toArray t (vs.getD s.1 V3.zero) ∧
+          PlanePt (planeToLocal pos n bias).1 (planeToLocal pos n bias).2 eps verts.toArray t (vs.getD s.2 V3.zero))) ∧
+    (∀ vs segs, Section.sectionCanonical verts tris i bias eps = some (.intersect vs segs) →
+      (∀ s ∈ segs, s.1 < vs.length ∧ s.2 < vs.length) ∧ segs.Pairwise SegNe ∧
+      (∀ s ∈ segs, ∃ t ∈ tris, PlanePt (ithAxis i) bias eps verts.toArray t (vs.getD s.1 V3.zero) ∧
+          PlanePt (ithAxis i) bias eps verts.toArray t (vs.getD s.2 V3.zero))) := by
+  letI : Num K := fieldNum K sq
+  refine ⟨section_never_panics sq verts tris _ _ eps he hv, section_never_panics sq verts tris _ _ eps he hv, ?_, ?_⟩
+  · intro vs segs h
+    obtain ⟨a, b, c, _⟩ := section_polyline_spec sq verts tris _ _ eps he vs segs h
+    exact ⟨a, b, c⟩
+  · intro vs segs h
+    obtain ⟨a, b, c, _⟩ := section_polyline_spec sq verts tris _ _ eps he vs segs h
+    exact ⟨a, b, c⟩
+
+/-! non-vacuity: the tetrahedron `0, e₁, e₂, e₃` (valid indices, closed, outward faces). Cut by `z = 1/2` the section is the closed,
+consistently oriented triangle `0→1→2→0` through the three crossing points; cut by the plane `x = y` (through the vertices `0` and
+`e₃`, crossing the edge `e₁e₂`) it is again one closed loop: the in-plane mesh edge `0–e₃` is contributed by two triangles and
+emitted once. -/
+def sectionSummary {K : Type} : Option (Section.Result K) → List (V3 K) × List (Nat × Nat)
+  | some (.intersect vs segs) => (vs, segs)
+  | _ => ([], [])
+example : validMesh 4 [(0, 2, 1), (0, 1, 3), (1, 2, 3), (2, 0, 3)] = true := by decide
+example : (letI := fieldNum ℚ id
+    let r := sectionSummary (Section.localSection [⟨0, 0, 0⟩, ⟨1, 0, 0⟩, ⟨0, 1, 0⟩, ⟨0, 0, 1⟩] [(0, 2, 1), (0, 1, 3), (1, 2, 3), (2, 0, 3)]
+      (⟨0, 0, 1⟩ : V3 ℚ) (1 / 2) 0)
+    (r.1.map fun p => [p.x, p.y, p.z], r.2)) = ([[1 / 2, 0, 1 / 2], [0, 0, 1 / 2], [0, 1 / 2, 1 / 2]], [(0, 1), (1, 2), (2, 0)]) := by
+  decide +kernel
+example : (letI := fieldNum ℚ id
+    let r := sectionSummary (Section.localSection [⟨0, 0, 0⟩, ⟨1, 0, 0⟩, ⟨0, 1, 0⟩, ⟨0, 0, 1⟩] [(0, 2, 1), (0, 1, 3), (1, 2, 3), (2, 0, 3)]
+      (⟨1, -1, 0⟩ : V3 ℚ) 0 0)
+    (r.1.map fun p => [p.x, p.y, p.z], r.2)) = ([[1 / 2, 1 / 2, 0], [0, 0, 0], [0, 0, 1]], [(0, 1), (1, 2), (2, 0)]) := by
+  decide +kernel
+/-- a symmetric adjacency structure with a repeated entry (`0–1` listed twice): one segment per edge -/
+example : Section.orient #[[1, 1, 2], [0, 0, 2], [0, 1]] = [(0, 1), (1, 2), (2, 0)] := by decide
+
 end C17
